@@ -7,6 +7,7 @@ import (
 	"fmt"
 	"os"
 	"path/filepath"
+	"runtime/debug"
 	"sort"
 	"strconv"
 	"sync"
@@ -248,7 +249,15 @@ func runProp[C any](t *testing.T, ev *Ev, sub string, journal bool, gen func(*ra
 		if journal {
 			writeReplay(journalPath(id), id, sub, c, "journal")
 		}
-		if err := run(c, ev); err != nil {
+		err := func() (err error) {
+			defer func() {
+				if r := recover(); r != nil {
+					err = fmt.Errorf("INFRA: harness panic: %v\n%s", r, debug.Stack())
+				}
+			}()
+			return run(c, ev)
+		}()
+		if err != nil {
 			cc := c
 			lastFail = &cc
 			lastMsg = err.Error()
